@@ -6,6 +6,7 @@ pub mod ds;
 pub mod layout;
 pub mod meta;
 pub mod misc;
+pub mod sched;
 
 /// Dispatch one line. Returns None for an unknown component.
 pub fn dispatch(tokens: &[&str]) -> Option<String> {
@@ -15,4 +16,5 @@ pub fn dispatch(tokens: &[&str]) -> Option<String> {
         .or_else(|| layout::dispatch(tokens))
         .or_else(|| misc::dispatch(tokens))
         .or_else(|| conc::dispatch(tokens))
+        .or_else(|| sched::dispatch(tokens))
 }
